@@ -567,7 +567,8 @@ TECHNIQUE = ("translator + Coq: GCC's post-optimisation call graph of the librar
              "(reachable_complete / reachable_sound proved once, generically) evaluated with vm_compute; the indirect-call "
              "table is validated by driving the same callbacks, generated port trees, messages and ThreadLinks under "
              "allocator / mutex interposition")
-LEVEL_TEXT = ("Proved for the call graph GCC emits for the current source (-O2 -g -DNDEBUG): no path of direct calls, or of "
+LEVEL_CATEGORY = "proof"    # of the graph statements; the run-time property itself is PARTIAL (LEVEL_NOTE)
+LEVEL_TEXT = ("PARTIAL (call-graph level). Proved for the call graph GCC emits for the current source (-O2 -g -DNDEBUG): no path of direct calls, or of "
               "indirect calls as resolved by the explicit table, leads from any RT entry point (rtosc_message/vmessage/"
               "amessage/avmessage, all readers, bundle functions, rtosc_match*, Ports::dispatch, each of the instantiated "
               "sugar callbacks, RtData::reply/broadcast/chain, every ThreadLink method) to malloc/calloc/realloc/free/"
